@@ -14,6 +14,7 @@ CONSTANTS
   MaxPath = %d
   EMIT = TRUE
   RICH = %s
+  UNIFORM = %s
 INVARIANT WellFormed
 INVARIANT GenLexAgree
 INVARIANT Emit
@@ -38,10 +39,10 @@ def label_selfcheck(ctx, corpus_path):
     os.remove(p)
 
 
-def gen_doc_cases(ctx, maxn, maxpath, rich, tag):
+def gen_doc_cases(ctx, maxn, maxpath, rich, tag, uniform=False):
     """MCTomlDoc: model-check the definition machine and emit one text per behaviour."""
     texts = []
-    r = ctx.tlc("MCTomlDoc", DOC_CFG % (maxn, maxpath, "TRUE" if rich else "FALSE"), tag=tag, workers=8,
+    r = ctx.tlc("MCTomlDoc", DOC_CFG % (maxn, maxpath, "TRUE" if rich else "FALSE", "TRUE" if uniform else "FALSE"), tag=tag, workers=8,
                 timeout=7200, on_json=lambda o: texts.append(o))
     log("MCTomlDoc %s: %d distinct states, %d texts, %.1fs" % (tag, r.distinct, len(texts), r.wall))
     if len(texts) != r.distinct:
@@ -106,8 +107,13 @@ def inputs(ctx, h, which):
         else:
             models = [(3, 2, False, "doc-n3p2"), (2, 3, True, "doc-n2p3r")] if ctx.quick else \
                      [(3, 3, True, "doc-n3p3r")]
-        for (n, pth, rich, tag) in models:
-            recs = gen_doc_cases(ctx, n, pth, rich, tag)
+        if ctx.prop == "C03":   # repeated key segments spelled identically: exact equality must hold
+            models = [m + (True,) for m in models] + [models[-1]]
+        for m in models:
+            (n, pth, rich, tag) = m[:4]
+            uniform = len(m) > 4
+            tag = tag + ("u" if uniform else "")
+            recs = gen_doc_cases(ctx, n, pth, rich, tag, uniform)
             p = ctx.path(tag + ".ndjson")
             core.write_ndjson(p, recs)
             out.append((tag, p))
@@ -120,6 +126,8 @@ def classify_known(ctx, m):
         if ent.get("status") != "known" or ctx.prop not in ent.get("properties", [ent.get("property")]):
             continue
         rule = ent.get("match", {})
+        if rule.get("kind") == "what" and m["what"] == rule.get("what"):
+            return ent["id"]
         if rule.get("kind") == "parse-verdict" and m["what"] == "verdict":
             d = m["detail"]
             if d.get("spec") == rule.get("spec") and d.get("impl") == rule.get("impl") and d.get("why") == rule.get("why"):
@@ -130,16 +138,16 @@ def classify_known(ctx, m):
     return None
 
 
-def run_parse(ctx, which, want):
+def run_parse(ctx, which, want, subcmd="parse-events", features=("preserve_order",)):
     """want: set of mismatch kinds that are violations of ctx.prop ("verdict", "tree", "panic")."""
-    h = ctx.build(features=("preserve_order",))
+    h = ctx.build(features=features)
     ins = inputs(ctx, h, which)
     total_u1 = 0
     other = 0
     accepted = 0
     for tag, path in ins:
         evp = ctx.path(tag + ".ev")
-        ctx.harness(h, ["parse-events", "--in", path, "--out", evp])
+        ctx.harness(h, [subcmd, "--in", path, "--out", evp])
         mism, u1, n = ctx.validate(evp)
         total_u1 += len(u1)
         # coverage: distinct non-trivial = distinct texts with at least one statement-like line
@@ -169,7 +177,7 @@ def run_parse(ctx, which, want):
     ctx.evaluations = ctx.validated
 
 
-def replay_parse(ctx, path, want):
+def replay_parse(ctx, path, want, subcmd="parse-events"):
     rp = json.load(open(path))
     h = ctx.build(features=("preserve_order",))
     ev = rp["event"]
@@ -181,10 +189,10 @@ def replay_parse(ctx, path, want):
         rec["text"] = ev["text"]
     core.write_ndjson(tp, [rec])
     evp = ctx.path("replay.ev")
-    ctx.harness(h, ["parse-events", "--in", tp, "--out", evp])
+    ctx.harness(h, [subcmd, "--in", tp, "--out", evp])
     mism, u1, n = ctx.validate(evp)
     for m in mism:
-        if m["what"] in want:
+        if m["what"] in want and not classify_known(ctx, m):
             ctx.report("%s %s" % (m["what"], ev["id"]), {"kind": "parse", "event": m["event"], "what": m["what"],
                                                            "detail": m["detail"]}, None)
     for pth, s in ctx.violations:
